@@ -650,6 +650,7 @@ def run_plan(prop, plan):
                 continue  # its publication was made to fail; the no-loss invariant has been checked at every boundary
             if rel not in dfiles and rel in consumed:
                 if method != "move" and consumed[rel] != (src_final.get(rel) or versions[rel][-1]) and not _is_rf(rel) and \
+                        not (rel in start_listed and not selected(rel)) and \
                         given_to_copy.get(rel, -1) >= modified_round.get(rel, 0) and rel not in expired_uncopied:
                     viol("mirrored_content_differs", "%s was delivered downstream in an older version and its later "
                          "modification (event delivered) never arrived" % rel, md=True, md_expired_before_copy=False)
